@@ -75,7 +75,8 @@ struct StoreSession : public vw::Session {
     return s + "]";
   }
   template <typename Index>
-  std::string bopOnly(const Index& i, bool deref) {
+  std::string bopOnly(const Index& i, bool deref, bool omit = false) {
+    if (omit) return "";
     if (!deref) return " nbop=" + std::to_string(i.getBlockOfProofEndorsement().size());
     std::vector<std::string> c;
     for (auto* e : i.getBlockOfProofEndorsement()) c.push_back(vw::endId(*reg, *e));
@@ -106,18 +107,18 @@ struct StoreSession : public vw::Session {
     return "ALT " + reg->nameOf(i.getHash()) + " h=" + std::to_string(i.getHeight()) + " st=" +
            std::to_string(i.getStatus()) + (withMarks ? marks(i) : "") + vw::plIds(*reg, i) + ceOnly(i) + byOnly(i);
   }
-  std::string vbkLine(const BlockIndex<VbkBlock>& i, bool withMarks, bool deref) {
+  std::string vbkLine(const BlockIndex<VbkBlock>& i, bool withMarks, bool deref, bool omitBop = false) {
     return "VBK " + reg->nameOf(i.getHash()) + " h=" + std::to_string(i.getHeight()) + " st=" +
            std::to_string(i.getStatus()) + (withMarks ? marks(i) : "") + " rc=" + std::to_string(i.refCount()) +
-           vtbIds(i) + ceOnly(i) + byOnly(i) + bopOnly(i, deref);
+           vtbIds(i) + ceOnly(i) + byOnly(i) + bopOnly(i, deref, omitBop);
   }
-  std::string btcLine(const BlockIndex<BtcBlock>& i, bool withMarks, bool deref) {
+  std::string btcLine(const BlockIndex<BtcBlock>& i, bool withMarks, bool deref, bool omitBop = false) {
     auto refs = i.getRefs();
     std::sort(refs.begin(), refs.end());
     std::string s = "BTC " + reg->nameOf(i.getHash()) + " h=" + std::to_string(i.getHeight()) + " st=" +
                     std::to_string(i.getStatus()) + (withMarks ? marks(i) : "") + " refs=[";
     for (auto x : refs) s += std::to_string(x) + ",";
-    return s + "]" + bopOnly(i, deref);
+    return s + "]" + bopOnly(i, deref, omitBop);
   }
 
   std::string xdump(Instance& I, bool deref, bool altOnly = false) {
@@ -304,8 +305,10 @@ struct StoreSession : public vw::Session {
   // state comparison of the part F retains and that can still matter:
   //  ALT: blocks of F that descend from F's final block or lie on F's active chain: status, payload ids,
   //       containing endorsements; endorsedBy restricted to endorsements whose containing block F still has
-  //  VBK/BTC: blocks of F: status, refcount/refs, VTB ids, containing endorsements, number of block-of-proof
-  //       back pointers (not dereferenced: they dangle in F once the containing ALT block is deallocated)
+  //  VBK/BTC: blocks of F: status, refcount/refs, VTB ids, containing endorsements, endorsedBy. The block-of-proof
+  //       back pointers are NOT compared: they are memory-only, a finalizing instance legitimately holds fewer
+  //       (pointers into deallocated containing blocks are dropped once known finding
+  //       dangling-endorsement-backpointers is repaired; before the repair they dangle and must not be read)
   // preserved window (property text: "every block within the preserved window ... remains available"): the root of a
   // finalizing tree is never above max(bootstrap, final - preserveBlocksBehindFinal)
   template <typename Tree>
@@ -344,13 +347,13 @@ struct StoreSession : public vw::Session {
     }
     for (auto* i : F.tree.vbk().getBlocks()) {
       auto* j = N.tree.vbk().getBlockIndex(i->getHash());
-      if (j == nullptr) { cmpl(vbkLine(*i, false, false), "<missing>"); continue; }
-      cmpl(vbkLine(*i, false, false), vbkLine(*j, false, false));
+      if (j == nullptr) { cmpl(vbkLine(*i, false, false, true), "<missing>"); continue; }
+      cmpl(vbkLine(*i, false, false, true), vbkLine(*j, false, false, true));
     }
     for (auto* i : F.tree.btc().getBlocks()) {
       auto* j = N.tree.btc().getBlockIndex(i->getHash());
-      if (j == nullptr) { cmpl(btcLine(*i, false, false), "<missing>"); continue; }
-      cmpl(btcLine(*i, false, false), btcLine(*j, false, false));
+      if (j == nullptr) { cmpl(btcLine(*i, false, false, true), "<missing>"); continue; }
+      cmpl(btcLine(*i, false, false, true), btcLine(*j, false, false, true));
     }
     cmpl("VBK best " + reg->nameOf(F.tree.vbk().getBestChain().tip()->getHash()),
          "VBK best " + reg->nameOf(N.tree.vbk().getBestChain().tip()->getHash()));
